@@ -86,6 +86,9 @@ type Exec struct {
 	makeSliceMax int
 	events       []string
 	fnStack      []*ssa.Function
+	symDecisions int
+	loopSeen     map[string]int
+	concCount    map[string]int
 
 	injectFailures bool
 }
@@ -127,6 +130,9 @@ func (e *Exec) runPath(fn *ssa.Function, prefix []bool) {
 	e.prefix = prefix
 	e.decisions = nil
 	e.loopCount = map[string]int{}
+	e.loopSeen = map[string]int{}
+	e.concCount = map[string]int{}
+	e.symDecisions = 0
 	e.nondet = 0
 	e.sol.Push()
 	defer e.sol.Pop()
@@ -214,6 +220,7 @@ func (e *Exec) decide(cond Term) bool {
 		return cond.B
 	}
 	e.branches++
+	e.symDecisions++
 	pos := len(e.decisions)
 	if pos < len(e.prefix) {
 		d := e.prefix[pos]
@@ -509,13 +516,23 @@ func (e *Exec) runFrame(fr *frame, args []Value) Value {
 		if next == nil {
 			e.fail("fell off block in %s", fn)
 		}
-		// loop bound on back-edges
+		// loop bound on back-edges: iterations in which a symbolic branch was decided count
+		// against the unwinding bound; purely concrete iterations only against a hard cap
 		if next.Index <= blk.Index {
 			k := fmt.Sprintf("%s#%d->%d", fn.String(), blk.Index, next.Index)
-			e.loopCount[k]++
-			if e.loopCount[k] > e.maxLoop {
-				e.unwound = append(e.unwound, k)
-				panic(pathEnd{"UNWIND " + k})
+			if e.symDecisions != e.loopSeen[k] {
+				e.loopSeen[k] = e.symDecisions
+				e.loopCount[k]++
+				if e.loopCount[k] > e.maxLoop {
+					e.unwound = append(e.unwound, k)
+					panic(pathEnd{"UNWIND " + k})
+				}
+			} else {
+				e.concCount[k]++
+				if e.concCount[k] > 200000 {
+					e.unwound = append(e.unwound, "concrete loop cap "+k)
+					panic(pathEnd{"UNWIND " + k})
+				}
 			}
 		}
 		prev, blk = blk, next
@@ -1588,6 +1605,8 @@ func (e *Exec) runInits(pkgs []string) {
 				}
 			}()
 			e.loopCount = map[string]int{}
+			e.loopSeen = map[string]int{}
+			e.concCount = map[string]int{}
 			e.regions = map[string]Term{}
 			e.obs = map[string]Term{}
 			e.call(initF, nil)
